@@ -3,7 +3,7 @@
    server side of an accepted resume is C12's theorem (exactly the entries after the bookmark). *)
 From Verif Require Import RemoteWatch RemoteWatchProofs.
 From Coq Require Import ZArith.
-From Verif Require Ring RingProofs WatchProofs RemoteRing RemoteRingProofs.
+From Verif Require Ring RingProofs WatchProofs RemoteRing RemoteRingProofs RetryBudget RetryBudgetProofs.
 
 (* for every selector, window test, initial part, start position, retry setting and every schedule of commits,
    deliveries, stream failures, failed re-dials, successful re-dials (on the same or a foreign incarnation), giving up
@@ -85,3 +85,34 @@ Theorem C13_over_ring_death_cause : forall initcap p0 retries s c,
      RemoteRing.r_mode s = RemoteRing.RStream spos [] true /\ (lagged_at - spos > initcap)%Z).
 Proof. exact RemoteRingProofs.remote_over_ring_death_cause. Qed.
 Print Assumptions C13_over_ring_death_cause.
+
+(* ---- "retries exhausted" (RetryBudget.v: the backoff's clock, replayed on the retry log of every harness case) ----
+   Giving up is accepted by the model only when the time since the last break of an established stream is within
+   one maximal jittered interval (90 s) of the 15-minute budget ... *)
+Theorem C13_giveup_means_exhausted : forall l b b' t,
+  RetryBudgetProofs.cur_ok b -> RetryBudgetProofs.brun true b l = Some b' ->
+  RetryBudget.bstep true b' (RetryBudget.BGiveUp t) <> None ->
+  (RetryBudget.max_elapsed - (3 * RetryBudget.max_interval + 1) / 2 <
+   t - RetryBudgetProofs.last_reset l (RetryBudget.b_start b))%Z.
+Proof. exact RetryBudgetProofs.giveup_means_exhausted. Qed.
+Print Assumptions C13_giveup_means_exhausted.
+
+(* ... so a watch never ends with "maximum retry attempts" without having tried: in every accepted trace a give-up
+   less than 14 min 59.25 s after the last break has a retry decision between the two, however old the watch is *)
+Theorem C13_giveup_soon_after_break_has_retry : forall mid l1 l2 b t t',
+  RetryBudgetProofs.cur_ok b ->
+  RetryBudget.baccepts true b (l1 ++ RetryBudget.BBreak t :: mid ++ RetryBudget.BGiveUp t' :: l2) = true ->
+  RetryBudgetProofs.no_reset mid = true ->
+  RetryBudgetProofs.nondecreasing_from t (mid ++ [RetryBudget.BGiveUp t']) = true ->
+  (t' - t <= RetryBudget.max_elapsed - (3 * RetryBudget.init_interval + 1) / 2)%Z ->
+  RetryBudgetProofs.has_retry mid = true.
+Proof. exact RetryBudgetProofs.giveup_soon_after_break_has_retry. Qed.
+Print Assumptions C13_giveup_soon_after_break_has_retry.
+
+(* the reset policy of the code as found (F13): give-up at the instant of the first failure of a 20-minute-old
+   watch, with no attempt, is accepted by that policy and rejected by the repaired one *)
+Theorem C13_retry_budget_old_policy_refuted :
+  RetryBudget.baccepts false (RetryBudget.bo_new 0) RetryBudgetProofs.old_witness = true /\
+  RetryBudget.baccepts true (RetryBudget.bo_new 0) RetryBudgetProofs.old_witness = false.
+Proof. exact RetryBudgetProofs.old_policy_gives_up_without_retry. Qed.
+Print Assumptions C13_retry_budget_old_policy_refuted.
